@@ -93,13 +93,17 @@ def segPhasor [Zero K] [Mul K] (ph : R → K) (amp : Attr K) (opd : Attr R) (s0 
                                  * ph (opd.at (i + g.s.r0) (j + g.s.c0)) },
     o0 := off.1, o1 := off.2 }
 
+/-- NumPy broadcasting of `amplitude * exp(.. opd ..)`: the shape of whichever attribute is an array, else one element -/
+def attrShape (amp : Attr K) (opd : Attr R) : Int × Int :=
+  match amp, opd with
+  | .array a, _ => (a.s0, a.s1)
+  | _, .array o => (o.s0, o.s1)
+  | _, _ => (1, 1)
+
 /-- 0-d mask: slice `Ellipsis`, offset `(0, 0)`; the phasor takes the shape of whichever attribute is an array
 (NumPy broadcasting), else it is a one-element field -/
 def scalarPhasor [Zero K] [Mul K] (ph : R → K) (amp : Attr K) (opd : Attr R) (on : Bool) : Fld K :=
-  let sh : Int × Int := match amp, opd with
-    | .array a, _ => (a.s0, a.s1)
-    | _, .array o => (o.s0, o.s1)
-    | _, _ => (1, 1)
+  let sh : Int × Int := attrShape amp opd
   { arr := { s0 := sh.1, s1 := sh.2, get := fun i j => maskMul on (amp.at i j) * ph (opd.at i j) }, o0 := 0, o1 := 0 }
 
 /-- the list of phasors built inside the loop `for n, s in enumerate(self._slice)` -/
